@@ -7,7 +7,7 @@ import (
 	"os"
 
 	"verifharness/internal/fw"
-	_ "verifharness/props"
+	"verifharness/props"
 )
 
 func main() {
@@ -49,6 +49,9 @@ func main() {
 			}
 			fmt.Printf("| %s | %s | %s |\n", id, row, p.Level)
 		}
+	case "hashprobe":
+		// a fresh process that calls some built-ins in a given order and prints what HASH returns (C18, phase hash-process)
+		fmt.Print(props.HashProbe(os.Args[2], os.Args[3]))
 	case "list":
 		for _, id := range fw.IDs() {
 			fmt.Println(id)
